@@ -13,6 +13,7 @@ import (
 	"path/filepath"
 	"strings"
 	"sync"
+	"syscall"
 	"time"
 
 	// imports required for go-digest
@@ -511,6 +512,13 @@ func (mr *memRepo) repoInit() error {
 	statIndex, errIndex := os.Stat(filepath.Join(mr.path, indexFile))
 	//#nosec G304 internal method is only called with filenames within admin provided path.
 	layoutBytes, errLayout := os.ReadFile(filepath.Join(mr.path, layoutFile))
+	for _, err := range []error{errIndex, errLayout} {
+		// only a missing file means there is no layout; any other failure (EIO, EMFILE, ...) may be gone on the next attempt
+		// and must not leave an empty repository behind for the lifetime of the store
+		if err != nil && !errors.Is(err, fs.ErrNotExist) && !errors.Is(err, syscall.ENOTDIR) {
+			return err
+		}
+	}
 	if errIndex != nil || errLayout != nil || statIndex.IsDir() || !layoutVerify(layoutBytes) {
 		return nil
 	}
